@@ -10,7 +10,9 @@ TARGETS = [M]
 THEOREMS = [(M, "NQ.C18." + n) for n in [
     "chan_inv", "plain_got", "exactly_once_fifo", "no_stale", "recv_returns_head", "pop_never_crashes",
     "recv_nonblock_empty", "recv_nonblock_nonempty", "lock_inv", "rendezvous_inv", "rendezvous_stable",
-    "rendezvous", "callback_registered_while_open", "callback_inv", "f20_schedule_fixed"]]
+    "rendezvous", "callback_registered_while_open", "callback_inv", "f20_schedule_fixed",
+    "queue_path_fifo", "paths_partition", "callback_matches_incarnation", "send_path_matches_incarnation",
+    "mixed_key_not_globally_fifo"]]
 TRANSLATORS = []
 LEVEL_TEXT = (
     "Lean theorems about a transition system of _SocketHub at shared-access granularity (one step = one source "
@@ -20,7 +22,12 @@ LEVEL_TEXT = (
     "of the receiving thread are exactly the popped prefix (no stale message), pop(0) never hits an empty list, "
     "non-blocking recv on an empty queue reports emptiness and changes nothing, the lock has the holder the code "
     "intends, rendezvous: once the peer executed open.add the waiting side leaves _wait_for_remote within one loop "
-    "iteration whatever the others do (also after the peer disconnected), callback sockets (after the F20 fix): a "
+    "iteration whatever the others do (also after the peer disconnected), keys of ANY history (callback and plain incarnations, disconnects, reconnects): the queue path is "
+    "exactly-once FIFO (queued = popped ++ queue, recv results = popped) and sent is an interleaving of the queue path and "
+    "the callback path for every program; whenever the key is visible in _open_sockets a callback is registered iff the "
+    "open incarnation uses callbacks (for owners that do not connect a key twice without a disconnect), so a send takes "
+    "the path of the open incarnation; the global identity sent = delivered ++ queue is proved FALSE for a "
+    "plain-then-callback key (kernel-decided trace, lock-step checked); callback sockets (after the F20 fix): a "
     "key visible in _open_sockets has its callback registered, and the callback storage is the delivered sequence. "
     "Tie: LOCK-STEP correspondence: the real hub runs real threads under a deterministic scheduler (sys.settrace "
     "parks each thread in front of every such line, located by AST pattern), the compiled model runs the same "
@@ -30,7 +37,7 @@ LEVEL_NOTE = (
     "PARTIAL (labelled): below statement granularity (preemption inside a source line / inside C code), timeouts, "
     "sleep (set to 0), garbage-collection driven __del__ and dead WeakMethods are not modelled; atomicity of single "
     "set/dict/list operations under the GIL and of threading.Lock is assumed; one thread per endpoint (a key is "
-    "used by its owner thread only). callback_inv / callback_registered_while_open are stated for callback keys that are never connected without callbacks and never disconnected (CbOnlyProg); the plain-channel theorems are unconditional. Bounded "
+    "used by its owner thread only). callback_inv (callback storage = sent, nothing queued) is stated for callback keys that are never connected plain and never disconnected (CbOnlyProg); callback_matches_incarnation / send_path_matches_incarnation cover every history in which the owner does not connect a key twice without a disconnect (LifeOk); queue_path_fifo, paths_partition and the plain-channel theorems are unconditional. Messages queued for an incarnation that closed without receiving them stay in _messages[key]: a later plain incarnation pops them first, a later callback incarnation never sees them (stated, mixed_key_not_globally_fifo). Bounded "
     "exhaustive / random schedules only validate the model (tie), the theorems cover all schedules.")
 TECHNIQUE = ("Lean 4 proof (invariants by induction over all interleavings of a transition system) + lock-step "
              "differential correspondence against real threads under a deterministic scheduler")
@@ -104,6 +111,13 @@ def run(ctx):
         except H.Stuck as e:
             res.failures.append({"what": "harness could not drive the real hub: %s" % e, "kf": None,
                                  "input": {"progs": empty_progs, "schedule": sched}})
+    for hp in H.history_pairs():   # the delivery mode of a key changes across a disconnect / reconnect
+        for pol in (H.preemptive_policy({}, []), H.forced([0] * 12 + [1] * 40 + [0, 1] * 60)):
+            try:
+                corpus.append(H.run_case(hp, pol))
+            except H.Stuck as e:
+                res.failures.append({"what": "harness could not drive the real hub: %s" % e, "kf": None,
+                                     "input": {"progs": hp}})
     for sched in ([1, 1] + [0] * 7 + [1, 1] + [0] * 3 + [1] * 3,          # the recorded F20 schedule (unfixed order)
                   [1, 1, 1, 1] + [0] * 9 + [1] * 3,                          # callbacks, publish, then A runs
                   [1, 1, 1] + [0] * 3 + [1] + [0] * 6 + [1] * 3,            # B publishes only open, A connects+sends
@@ -148,6 +162,7 @@ def run(ctx):
         rng.shuffle(pairs)
         core = [((0, ("s", "s"), 0), (1, (), 0)), ((1, ("s", "rn"), 1), (1, ("s",), 1)),
                 ((0, ("s", "s"), 1), (0, ("rb", "rn"), 0)), ((0, ("rn", "s"), 0), (0, ("rb", "s"), 1))]
+        core = [("progs", hp) for hp in H.history_pairs()] + core
         if ctx.thorough:
             budget, chosen = 420, core + pairs
         else:
